@@ -120,6 +120,53 @@ func init() {
 		tr.havocCells(buf.L[0], buf.L[1], Add(buf.L[1], buf.L[2]), "rd")
 		return Val{L: []*Term{n, err}}
 	})
+	// sync/atomic typed values: a load yields an unknown value, the other operations also
+	// overwrite the atomic cell; nothing else is touched
+	for _, ty := range []string{"Bool", "Int32", "Int64", "Uint32", "Uint64", "Uintptr"} {
+		for _, op := range []string{"Store", "Add", "Swap", "CompareAndSwap", "And", "Or"} {
+			name := "sync/atomic.(*" + ty + ")." + op
+			libModels[name] = func(tr *FnTr, x ssa.Value, a []Val, cc *ssa.CallCommon) Val {
+				tr.usedModel("sync/atomic typed values (the operation overwrites the atomic cell with an unknown value, result unknown)")
+				tr.check("nil", Ne(a[0].L[0], Int(0)), posOf(x))
+				if pt, ok := a[0].T.Underlying().(*types.Pointer); ok {
+					tr.havocCells(a[0].L[0], a[0].L[1], Add(a[0].L[1], Int(int64(sizeOf(pt.Elem())))), "atomic")
+				}
+				if x == nil || x.Type() == nil {
+					return Val{}
+				}
+				if tp, ok := x.Type().(*types.Tuple); ok && tp.Len() == 0 {
+					return Val{}
+				}
+				return tr.freshVal(tr.vname(x), x.Type(), nil)
+			}
+			libEffects[name] = [2]bool{true, false}
+		}
+	}
+	for _, ty := range []string{"Int32", "Int64", "Uint32", "Uint64", "Uintptr"} {
+		ld := "sync/atomic.Load" + ty
+		libModels[ld] = func(tr *FnTr, x ssa.Value, a []Val, cc *ssa.CallCommon) Val {
+			tr.usedModel("sync/atomic functions (a load yields an unknown value; store/add overwrite the addressed cell)")
+			tr.check("nil", Ne(a[0].L[0], Int(0)), posOf(x))
+			return tr.freshVal(tr.vname(x), x.Type(), nil)
+		}
+		libEffects[ld] = [2]bool{false, false}
+		for _, op := range []string{"Store", "Add", "Swap", "CompareAndSwap"} {
+			name := "sync/atomic." + op + ty
+			libModels[name] = func(tr *FnTr, x ssa.Value, a []Val, cc *ssa.CallCommon) Val {
+				tr.usedModel("sync/atomic functions (a load yields an unknown value; store/add overwrite the addressed cell)")
+				tr.check("nil", Ne(a[0].L[0], Int(0)), posOf(x))
+				tr.havocCells(a[0].L[0], a[0].L[1], Add(a[0].L[1], Int(1)), "atomic")
+				if x == nil || x.Type() == nil {
+					return Val{}
+				}
+				if tp, ok := x.Type().(*types.Tuple); ok && tp.Len() == 0 {
+					return Val{}
+				}
+				return tr.freshVal(tr.vname(x), x.Type(), nil)
+			}
+			libEffects[name] = [2]bool{true, false}
+		}
+	}
 	mk("crypto/rand.Read", func(tr *FnTr, x ssa.Value, a []Val, cc *ssa.CallCommon) Val {
 		buf := a[0]
 		tr.havocCells(buf.L[0], buf.L[1], Add(buf.L[1], buf.L[2]), "rnd")
